@@ -87,6 +87,17 @@ def fam_C10(tier, seed):
         else:
             b.con(outer, xs=[o_con(i), at[n3]()])
         ps.append(b.done())
+    # a condition given as a plain Python bool (documented type: Union[z3.BoolRef, bool])
+    for cv, n1, n2 in itertools.product(("pytrue", "pyfalse"), ("startAt", "prec", "expr2"), ("endBefore", "sync")):
+        b = PB(H, tag="Implies-bool")
+        a, c = _mk(b)
+        b.con("Implies", cond={"op": cv}, xs=[_atoms(b, a, c)[n1]()])
+        ps.append(b.done())
+        b = PB(H, tag="IfThenElse-bool")
+        a, c = _mk(b)
+        at = _atoms(b, a, c)
+        b.con("IfThenElse", cond={"op": cv}, xs=[at[n1]()], ys=[at[n2]()])
+        ps.append(b.done())
     # operands whose encoding is SEVERAL assertions / introduces auxiliary variables (contiguity, groups,
     # N tasks in time intervals): the connective must combine the operands, not their individual assertions
     multi = {
